@@ -420,11 +420,19 @@ class DefinedMessage(Message):
     @avps.setter
     def avps(self, new_avps: list[Avp]):
         """Overwrites the list of custom AVPs."""
-        self._additional_avps = new_avps
+        if self._avps:
+            # decoded without conversion into attributes (`plain_msg`): the
+            # received list is what `avps` returns and what gets encoded
+            self._avps = new_avps
+        else:
+            self._additional_avps = new_avps
 
     def append_avp(self, avp: Avp):
         """Add an individual custom AVP."""
-        self._additional_avps.append(avp)
+        if self._avps:
+            self._avps.append(avp)
+        else:
+            self._additional_avps.append(avp)
 
 
 class UndefinedGroupedAvp:
